@@ -115,15 +115,17 @@ def build(scene):
     g = grids(scene)
     lm = mask_array(scene.get("lmask"), ny, nx)
     rm = mask_array(scene.get("rmask"), ny, nx)
+    # "origin": first row / column coordinate of both datasets (a tile read with a ROI does not start at 0)
+    org = tuple(scene.get("origin") or (0, 0))
     if g is None:
-        left = D.image(limg, disp=(scene["dmin"], scene["dmax"]), msk=lm)
-        right = D.image(rimg, disp=None, msk=rm)
+        left = D.image(limg, disp=(scene["dmin"], scene["dmax"]), msk=lm, origin=org)
+        right = D.image(rimg, disp=None, msk=rm, origin=org)
     else:
-        left = D.image(limg, disp=g, msk=lm)
+        left = D.image(limg, disp=g, msk=lm, origin=org)
         # cross-checking refuses left grids without right grids: give the right image the mirrored constant interval
         rlo = np.full((ny, nx), -scene["dmax"], dtype=np.float32)
         rhi = np.full((ny, nx), -scene["dmin"], dtype=np.float32)
-        right = D.image(rimg, disp=(rlo, rhi), msk=rm)
+        right = D.image(rimg, disp=(rlo, rhi), msk=rm, origin=org)
     return left, right
 
 
